@@ -104,7 +104,7 @@ def _panic_key(msg):
         return 'blobhash-setbytes32-panic'
     if 'slice_bounds_out_of_range' in m:
         return 'slice-bounds-panic'
-    return 'panic-' + re.sub(r'[^a-z0-9]+', '-', m)[:40]
+    return 'panic-' + re.sub(r'[^a-z#]+', '-', re.sub(r'[0-9]+', '#', m))[:44]
 
 
 def search(ctx, hints):
